@@ -1,5 +1,6 @@
 import BpProofs.Gen.SrcCodec
 import BpProofs.Varint
+import BpProofs.Fields
 /-
   THE TIE BETWEEN THE TRANSLATED SOURCE AND THE HAND-WRITTEN MODEL.
 
@@ -11,6 +12,7 @@ import BpProofs.Varint
   functions, so together: the property theorems hold of the code as written today, up to
   the semantics of the Python primitives fixed in BpProofs/PyPrelude.lean.
 -/
+set_option linter.unusedSimpArgs false
 namespace Bp.SrcTie
 open Bp Bp.Py
 
@@ -533,5 +535,189 @@ theorem fields_tag_split_eq (nw fuel : Nat) :
   unfold Src.fields_tag_split
   have hsh : Py.shr (nw : Int) 3 = ((nw / 8 : Nat) : Int) := by have := shr_nat nw 3; simpa using this
   simp only [hsh, and_7]
+
+theorem len_key_varint_eq (num fuel : Nat) (size : Int) :
+    Src.len_key_varint fuel (num : Int) size =
+      Py.ofR ((sizeVarint ((num * 8 : Nat) : Int)).map fun (n : Nat) => size + (n : Int)) := by
+  unfold Src.len_key_varint
+  rw [key_shl, size_varint_eq]
+  cases sizeVarint ((num * 8 : Nat) : Int) <;> rfl
+
+theorem len_key_fixed32_eq (num fuel : Nat) (size : Int) :
+    Src.len_key_fixed32 fuel (num : Int) size =
+      Py.ofR ((sizeVarint ((num * 8 + 5 : Nat) : Int)).map fun (n : Nat) => size + (n : Int)) := by
+  unfold Src.len_key_fixed32
+  rw [show ((5 : Int)) = ((5 : Nat) : Int) by rfl, key_or num 5 (by decide), size_varint_eq]
+  cases sizeVarint ((num * 8 + 5 : Nat) : Int) <;> rfl
+
+theorem len_key_fixed64_eq (num fuel : Nat) (size : Int) :
+    Src.len_key_fixed64 fuel (num : Int) size =
+      Py.ofR ((sizeVarint ((num * 8 + 1 : Nat) : Int)).map fun (n : Nat) => size + (n : Int)) := by
+  unfold Src.len_key_fixed64
+  rw [show ((1 : Int)) = ((1 : Nat) : Int) by rfl, key_or num 1 (by decide), size_varint_eq]
+  cases sizeVarint ((num * 8 + 1 : Nat) : Int) <;> rfl
+
+/-- the emitting branch of `_len_single` for a length-delimited field of preprocessed size `size` -/
+theorem len_lendelim_eq (num fuel : Nat) (size : Int) :
+    Src.len_lendelim fuel (num : Int) size =
+      Py.ofR ((sizeVarint ((num * 8 + 2 : Nat) : Int)).bind fun (k : Nat) =>
+        (sizeVarint size).bind fun (l : Nat) => .ok (size + ((k : Int) + (l : Int)))) := by
+  unfold Src.len_lendelim
+  rw [show ((2 : Int)) = ((2 : Nat) : Int) by rfl, key_or num 2 (by decide), size_varint_eq, size_varint_eq]
+  cases sizeVarint ((num * 8 + 2 : Nat) : Int) with
+  | error e => rfl
+  | ok k =>
+    cases sizeVarint size with
+    | error e => rfl
+    | ok l => rfl
+
+/-! ### `_read_exact` and `load_fields` (the framing loop) -/
+open Gen
+
+theorem read_exact_eq (s : Bytes) (n fuel : Nat) :
+    Src._read_exact fuel s (n : Int) = if s.length < n then .raise .eof else .ok (s.take n, s.drop n) := by
+  unfold Src._read_exact
+  simp only [Py.take, Py.drop, Py.len, Int.toNat_natCast]
+  by_cases h : s.length < n
+  · have : ((s.take n).length : Int) ≠ (n : Int) := by
+      rw [List.length_take]; omega
+    simp [h, this]
+  · have : ((s.take n).length : Int) = (n : Int) := by
+      rw [List.length_take]; omega
+    simp [h, this]
+
+theorem wf_drop (bs : Bytes) (hw : WfBytes bs) (k : Nat) : WfBytes (bs.drop k) :=
+  fun x hx => hw x (List.mem_of_mem_drop hx)
+
+/-- one iteration of the `while True:` loop of `load_fields` on a non-empty stream: it raises what
+    the model's `loadField` raises, or goes on with the parsed field appended and the model's
+    remaining input -/
+theorem fields_step (b0 : Nat) (rest : Bytes) (acc : List PField) (fuel : Nat)
+    (hw : WfBytes (b0 :: rest)) (hf : 10 < fuel) :
+    Src.load_fields.loop1 (fuel + 1) (b0 :: rest) acc =
+      match loadField (b0 :: rest) with
+      | .error e => .raise e
+      | .ok (pf, rest') => Src.load_fields.loop1 fuel rest' (acc ++ [pf]) := by
+  conv => lhs; unfold Src.load_fields.loop1
+  unfold loadField
+  have htake : Py.take (b0 :: rest) 1 = [b0] := by simp [Py.take]
+  have hdrop : Py.drop (b0 :: rest) 1 = rest := by simp [Py.drop]
+  simp only [htake, hdrop, List.isEmpty_cons, Bool.not_false, Bool.not_true, Bool.false_eq_true, if_false,
+    load_varint_first_eq b0 rest hw fuel hf]
+  cases hv : loadVarint (b0 :: rest) with
+  | error e => simp [Res.bind]
+  | ok p =>
+    obtain ⟨nw, k⟩ := p
+    have hsh : Py.shr (nw : Int) 3 = ((nw / 8 : Nat) : Int) := by have := shr_nat nw 3; simpa using this
+    simp only [Res.bind, hsh, and_7]
+    by_cases hz : nw / 8 = 0
+    · simp [hz]
+    · have hz' : ¬ ((nw / 8 : Nat) : Int) = 0 := by omega
+      have hzb : (nw / 8 == 0) = false := by simpa using hz
+      simp only [hz', decide_false, Bool.false_eq_true, if_false, hzb]
+      have hws : WfBytes ((b0 :: rest).drop k) := wf_drop _ hw k
+      generalize hbs : (b0 :: rest) = bs at *
+      have h8 : nw % 8 < 8 := Nat.mod_lt _ (by decide)
+      have hcases : nw % 8 = 0 ∨ nw % 8 = 1 ∨ nw % 8 = 2 ∨ nw % 8 = 5 ∨ (nw % 8 = 3 ∨ nw % 8 = 4 ∨ nw % 8 = 6 ∨ nw % 8 = 7) := by omega
+      rcases hcases with h | h | h | h | h
+      · -- varint payload
+        simp only [h, loadPayload, wireVarint, Nat.cast_zero, decide_true, if_true, beq_self_eq_true,
+          load_varint_eq _ hws fuel hf]
+        cases hv2 : loadVarint (bs.drop k) with
+        | error e => simp [Res.bind]
+        | ok q =>
+          obtain ⟨v2, k2⟩ := q
+          simp only [Res.bind, Int.toNat_natCast, List.drop_drop, ← List.take_add]
+          simp
+      · -- fixed64
+        have e8 : ((8 : Nat) : Int) = (8 : Int) := rfl
+        simp only [h, loadPayload, wireVarint, wireFixed64, Nat.cast_one, ← e8, read_exact_eq, Int.toNat_natCast]
+        by_cases hl : (bs.drop k).length < 8
+        · have hl' : bs.length - k < 8 := by simpa using hl
+          simp [hl']
+        · have hl' : ¬ bs.length - k < 8 := by simpa using hl
+          simp [hl', List.drop_drop, ← List.take_add]
+      · -- length-delimited
+        simp only [h, loadPayload, wireVarint, wireFixed64, wireLenDelim, load_varint_eq _ hws fuel hf, Int.toNat_natCast]
+        cases hv2 : loadVarint (bs.drop k) with
+        | error e => simp [Res.bind]
+        | ok q =>
+          obtain ⟨len, k2⟩ := q
+          simp only [Res.bind, read_exact_eq]
+          by_cases hl : ((bs.drop k).drop k2).length < len
+          · have hl' : bs.length - (k + k2) < len := by simpa [List.length_drop, Nat.sub_sub] using hl
+            simp [hl', Nat.sub_sub]
+          · have hl' : ¬ bs.length - (k + k2) < len := by simpa [List.length_drop, Nat.sub_sub] using hl
+            simp [hl', Nat.sub_sub, List.drop_drop, ← List.take_add, List.append_assoc, Nat.add_assoc]
+      · -- fixed32
+        have e4 : ((4 : Nat) : Int) = (4 : Int) := rfl
+        simp only [h, loadPayload, wireVarint, wireFixed64, wireLenDelim, wireFixed32, ← e4, read_exact_eq, Int.toNat_natCast]
+        by_cases hl : (bs.drop k).length < 4
+        · have hl' : bs.length - k < 4 := by simpa using hl
+          simp [hl']
+        · have hl' : ¬ bs.length - k < 4 := by simpa using hl
+          simp [hl', List.drop_drop, ← List.take_add]
+      · rcases h with h | h | h | h <;>
+          simp [h, loadPayload, wireVarint, wireFixed64, wireLenDelim, wireFixed32]
+
+/-- **`load_fields` is `loadFields`**: on every byte string the generator, run to the end, has
+    yielded exactly the model's fields (appended to whatever was yielded before) and consumed the
+    whole stream — or raises what the model raises -/
+theorem load_fields_loop (n : Nat) : ∀ (bs : Bytes) (acc : List PField) (fuel : Nat), bs.length ≤ n → WfBytes bs →
+    bs.length + 11 < fuel →
+    Src.load_fields.loop1 fuel bs acc =
+      match loadFields bs with
+      | .ok pfs => .ok (acc ++ pfs, [])
+      | .error e => .raise e := by
+  induction n with
+  | zero =>
+    intro bs acc fuel hn hw hf
+    have : bs = [] := List.eq_nil_of_length_eq_zero (by omega)
+    subst this
+    obtain ⟨f, rfl⟩ : ∃ f, fuel = f + 1 := ⟨fuel - 1, by omega⟩
+    unfold Src.load_fields.loop1
+    simp [Py.take, Py.drop, loadFields_nil]
+  | succ n ih =>
+    intro bs acc fuel hn hw hf
+    cases bs with
+    | nil =>
+      obtain ⟨f, rfl⟩ : ∃ f, fuel = f + 1 := ⟨fuel - 1, by omega⟩
+      unfold Src.load_fields.loop1
+      simp [Py.take, Py.drop, loadFields_nil]
+    | cons b0 rest =>
+      obtain ⟨f, rfl⟩ : ∃ f, fuel = f + 1 := ⟨fuel - 1, by omega⟩
+      simp only [List.length_cons] at hn hf
+      rw [fields_step b0 rest acc f hw (by omega)]
+      cases hlf : loadField (b0 :: rest) with
+      | error e => rw [loadFields_cons_err _ e (by simp) hlf]
+      | ok r =>
+        obtain ⟨pf, rest'⟩ := r
+        have ok := loadField_ok _ _ _ hlf
+        have hlen : rest'.length < (b0 :: rest).length := by
+          have := congrArg List.length ok.raw_rest
+          simp only [List.length_append] at this
+          have := ok.raw_pos
+          omega
+        simp only [List.length_cons] at hlen
+        have hw' : WfBytes rest' := by
+          intro x hx
+          apply hw x
+          rw [← ok.raw_rest]
+          exact List.mem_append_right _ hx
+        rw [loadFields_cons _ pf rest' (by simp) hlf]
+        simp only
+        rw [ih rest' (acc ++ [pf]) f (by omega) hw' (by omega)]
+        cases loadFields rest' with
+        | error e => rfl
+        | ok pfs => simp [Except.bind, bind]
+
+theorem load_fields_eq (bs : Bytes) (hw : WfBytes bs) (fuel : Nat) (hf : bs.length + 11 < fuel) :
+    Src.load_fields fuel bs =
+      match loadFields bs with
+      | .ok pfs => .ok (pfs, [])
+      | .error e => .raise e := by
+  unfold Src.load_fields
+  have := load_fields_loop bs.length bs [] fuel (Nat.le_refl _) hw hf
+  simpa using this
 
 end Bp.SrcTie
